@@ -372,3 +372,18 @@ func s30() scenario {
 		return a.sum()
 	})
 }
+
+// ---- S31: the very first ZA on a curve other than SM2 in this process, made by two threads, and nothing else: with
+// one short operation per thread the first thread's stores are still in the race detector's history when the second
+// thread reads (in S30 the first thread's own later operations push them out).
+func s31() scenario {
+	return independent("S31-first-za-on-p384-independent-objects", func(seed int) string {
+		a := newAcc()
+		cv := elliptic.P384()
+		d := new(big.Int).SetBytes(fixedScalar(byte(130 + seed))[:24])
+		x, y := cv.ScalarBaseMult(d.Bytes())
+		za, err := sm2.CalculateZA(&ecdsa.PublicKey{Curve: cv, X: x, Y: y}, pat(seed+1, 11))
+		a.add("za", za, err)
+		return a.sum()
+	})
+}
